@@ -190,7 +190,11 @@ def settle(ctx, ans, pending):
         if "ok" not in a:
             ctx.broke(f"translator:{kind}", a, info); continue
         r = a["ok"]
-        if r["wellscoped"] and r["agree"] and r["speclen_ok"] and extra_ok and r["evaluated"] > 0:
+        sym = r.get("symbolic")
+        ctx.count(f"symbolic={sym}")
+        key = "symbolically_verified_blocks" if sym is True else "numeric_only_blocks"
+        ctx.extra[key] = ctx.extra.get(key, 0) + 1
+        if r["wellscoped"] and r["agree"] and r["speclen_ok"] and extra_ok and r["evaluated"] > 0 and sym is not False:
             ctx.translator_discharged += 1
         else:
             ctx.broke(f"translator:{kind} (generated C++ body vs definition / Lean derivative)", dict(r, targets_ok=extra_ok), info)
@@ -200,11 +204,16 @@ def units(ctx):
     combos = [(c, k) for c in (0, 2) for k in (0, 1)]
     n = 2 if ctx.quick else 14
     out = []
+    any_inverse = False
     for rep in range(n):
         for (nc, nk) in combos:
             nsen = ctx.rng.choice([0, 1, 2, 3]) if rep else [0, 1, 2, 3][combos.index((nc, nk))]
             d = gen.gen_definition(ctx.rng, n_state=ctx.rng.choice([2, 3, 4]), n_control=nc and ctx.rng.choice([1, 2]), n_calib=nk and ctx.rng.choice([1, 2]),
                                    n_sensors=nsen, depth=2, transcend=(rep % 4 == 3) or (rep == 1 and (nc, nk) == (2, 1)))
+            if d.transcend and not any_inverse:
+                gen.force_inverse_composition(ctx.rng, d); any_inverse = True
+            if nsen and rep % 2 == 1:
+                gen.unsort_readings(d)
             out.append(d)
     return out
 
